@@ -76,13 +76,21 @@ def run(ctx):
     ctx.need(len(ch) == 1 and ch[0].state, 'clear_endpoint_halt.enable site')
     C = q.state_of(ch[0])
     STALLC = '(0 != self.interface.setup.value) | (2 != self.interface.setup.recipient)'
-    st = [a for a in q.raises(h, I + 'handshakes_out.stall') if q.state_of(a) == C]
-    ok = len(st) == 1 and (STALLC, True) in q.atoms(st[0]) and (I + 'status_requested', True) in q.atoms(st[0])
-    ctx.ob('C10.clear-feature-stall', 'StandardRequestHandler.clear-feature.stall', ok, st[0].loc if st else None,
-           'CLEAR_FEATURE is STALLed at its status stage unless recipient == ENDPOINT(2) and feature == ENDPOINT_HALT(0): %s' % [q.fmt(a) for a in st])
-    zl = [a for a in q.raises(h, I + 'tx.valid') if q.state_of(a) == C]
-    ok = len(zl) == 1 and {('2 == self.interface.setup.recipient', True), ('0 == self.interface.setup.value', True)} <= q.atoms(zl[0])
-    ctx.ob('C10.clear-feature-stall', 'StandardRequestHandler.clear-feature.zlp', ok, zl[0].loc if zl else None, 'the ZLP is sent only for the supported feature')
+    SR, V0, R2 = I + 'status_requested', '0 == self.interface.setup.value', '2 == self.interface.setup.recipient'
+    # one-cycle truth tables (whatever the spelling: If/Else arms, a direct assignment of the condition, a Mux): with
+    # everything the whole state sits under held, stall = status stage & unsupported, ZLP = status stage & supported
+    for role, sig, want in (('stall', I + 'handshakes_out.stall', lambda g: g[SR] and not (g[V0] and g[R2])),
+                            ('zlp', I + 'tx.valid', lambda g: g[SR] and g[V0] and g[R2])):
+        ds = [a for a in h.drivers(sig, exact=True) if q.state_of(a) == C]
+        bad = None
+        if ds:
+            for asg, val in q.flag_values(h, sig, C, assume=q.common_atoms(ds, without=(SR, V0, R2))):
+                if not all(k in asg for k in (SR, V0, R2)) or val != want(asg):
+                    bad = {k: v for k, v in asg.items() if k in (SR, V0, R2)}, val
+                    break
+        ctx.ob('C10.clear-feature-stall', 'StandardRequestHandler.clear-feature.' + role, bool(ds) and bad is None, ds[0].loc if ds else ch[0].loc,
+               'CLEAR_FEATURE is STALLed at its status stage unless recipient == ENDPOINT(2) and feature == ENDPOINT_HALT(0), and '
+               'answered with a ZLP exactly then: %s is %s when %s' % (sig, bad and bad[1], bad and bad[0]))
     ga = q.atoms(ch[0])
     ok = {('2 == self.interface.setup.recipient', True), ('0 == self.interface.setup.value', True)} <= ga or (STALLC, False) in ga
     ctx.ob('C10.no-state-change-when-stalled', 'StandardRequestHandler.clear-feature.enable', ok, ch[0].loc,
